@@ -229,6 +229,17 @@ CLAIMED = {
              "padding are linked by wild and every generated b/bl is decoded and followed through its thunk to the intended symbol (static analysis: no AArch64 emulator here).",
         technique="Coq proof (loop invariant over the two-mode assignment) + model/implementation correspondence through a hook + static control-flow analysis of real AArch64 links",
         design_ref="DESIGN.md §3 C11"),
+    "C10": dict(
+        text="S1: Gallina model of what wild writes for unwinding (an FDE is kept iff the section its pc-begin points into was loaded and is not empty; one search-table entry per kept FDE with "
+             "hdr-relative signed start and FDE pointer; the table sorted by the signed start) and of the consumer (the last entry with start <= pc, then the range check — what libgcc's binary "
+             "search yields on a sorted table). Theorems: the table is exactly the kept FDEs (one entry each, nothing else); it is sorted by start address wherever .eh_frame_hdr lies relative "
+             "to the code; for non-overlapping functions the lookup returns the FDE of every pc inside a retained function. A refutation shows what an unsigned sort key does.",
+        note="Trusted: which sections are retained is C05's subject; CIE handling and FDE byte contents are checked only end to end. Tie: generated objects (per-function sections with .cfi "
+             "directives, garbage-collected functions, COMDAT groups across objects, functions without unwind info, code pinned below and above .eh_frame_hdr) are linked with --eh-frame-hdr "
+             "--gc-sections; .eh_frame/.eh_frame_hdr are parsed back and checked (count, strict order, entry->FDE->pc-begin, FDEs = retained functions with unwind info and their sizes) "
+             "and the table is compared with the model's.",
+        technique="Coq proof (stable sort properties reused from C30, lookup on sorted non-overlapping ranges) + structural parse of real outputs",
+        design_ref="DESIGN.md §3 C10"),
     "C37": dict(
         text="S1 on top of C03: DT_NEEDED = the shared libraries in the verified loaded set, in command-line order. Theorems: listed iff loaded shared library; every --no-as-needed library listed; "
              "an --as-needed library listed only if some loaded file non-weakly references a name whose first definition it is; strictly increasing command-line positions (each at most once).",
